@@ -367,13 +367,14 @@ func (m *ldbManager) Add(transaction Transaction) error {
 	snapshot.Release()
 
 	if previous == frontierIdentifier {
-		if err := m.ldb.Put(common.JoinBytes(patchByte, common.Uint64ToBytes(identifier.Height)), patch.Dump(), nil); err != nil {
+		// one atomic write: redo patch, undo patch and every key of the commit
+		batch := new(leveldb.Batch)
+		batch.Put(common.JoinBytes(patchByte, common.Uint64ToBytes(identifier.Height)), patch.Dump())
+		batch.Put(common.JoinBytes(rollbackByte, common.Uint64ToBytes(identifier.Height)), rollbackPatch.Dump())
+		if err := ApplyPatch(newLevelDBBatchWrapper(batch).Subset(frontierByte), patch); err != nil {
 			return err
 		}
-		if err := m.ldb.Put(common.JoinBytes(rollbackByte, common.Uint64ToBytes(identifier.Height)), rollbackPatch.Dump(), nil); err != nil {
-			return err
-		}
-		if err := ApplyPatch(NewLevelDBWrapper(m.ldb).Subset(frontierByte), patch); err != nil {
+		if err := m.ldb.Write(batch, nil); err != nil {
 			return err
 		}
 	}
@@ -390,17 +391,14 @@ func (m *ldbManager) Pop() error {
 
 	rollbackPatch := m.getRollback(frontierIdentifier.Height)
 
-	if err := ApplyPatch(NewLevelDBWrapper(m.ldb).Subset(frontierByte), rollbackPatch); err != nil {
+	// one atomic write: every restored key and the removal of the redo and undo patches
+	batch := new(leveldb.Batch)
+	if err := ApplyPatch(newLevelDBBatchWrapper(batch).Subset(frontierByte), rollbackPatch); err != nil {
 		return err
 	}
-	if err := m.ldb.Delete(common.JoinBytes(patchByte, common.Uint64ToBytes(frontierIdentifier.Height)), nil); err != nil {
-		return err
-	}
-	if err := m.ldb.Delete(common.JoinBytes(rollbackByte, common.Uint64ToBytes(frontierIdentifier.Height)), nil); err != nil {
-		return err
-	}
-
-	return nil
+	batch.Delete(common.JoinBytes(patchByte, common.Uint64ToBytes(frontierIdentifier.Height)))
+	batch.Delete(common.JoinBytes(rollbackByte, common.Uint64ToBytes(frontierIdentifier.Height)))
+	return m.ldb.Write(batch, nil)
 }
 func (m *ldbManager) Stop() error {
 	m.changes.Lock()
